@@ -30,8 +30,22 @@ impl SelectState {
         }
     }
 
-    pub(crate) fn update_frame_id(&mut self, new_frame_id: u32) {
-        self.frame_id = new_frame_id;
+    /// a retransmission of the SELECT itself (same sequence number and object headers, received
+    /// directly after the SELECT or after an earlier retransmission of it) moves the frame id
+    /// forward, so that the OPERATE may directly follow the retransmission. A repeat of any other
+    /// request leaves the frame id alone: the OPERATE then no longer directly follows its SELECT.
+    pub(crate) fn update_frame_id_on_repeat(
+        &mut self,
+        seq: Sequence,
+        frame_id: u32,
+        object_hash: u64,
+    ) {
+        if self.seq == seq
+            && self.frame_id.wrapping_add(1) == frame_id
+            && self.object_hash == object_hash
+        {
+            self.frame_id = frame_id;
+        }
     }
 
     pub(crate) fn match_operate(
